@@ -3,13 +3,16 @@
 Model: Model/ExtraDims.v (state = format, extra dimensions, per record name -> raw bytes, VLR list; operations add / remove /
 assign / round trip) over the 192-byte descriptor layout, option bits, num_elements and scale/offset guards regenerated from
 laspy/vlrs/known.py (Gen/GenExtraBytes.v) and the tables of Gen/GenDims.v.
-Correspondence: histories of up to 12 operations through LasData.add_extra_dim(s) / remove_extra_dim(s), assignments and
-write/read round trips; after EVERY step las.point_format, las.vlrs (payload bytes), the bytes of all records and the raw bytes
+Correspondence: histories of up to 12 operations through LasData.add_extra_dim(s) / remove_extra_dim(s), assignments of one
+dimension, of the standard bytes and of the WHOLE record (las.points = a copy / a slice / the record of another LasData or of a
+re-read file / a bare PackedPointRecord, with its own PointFormat object and any number of points; also records of a different
+format, which must be refused) and write/read round trips; after EVERY step las.point_format, las.vlrs (payload bytes), the bytes of all records and the raw bytes
 of every extra dimension are compared with the model; 192-byte descriptors decoded by ExtraBytesVlr.type_of_extra_dims vs dec_eb.
 Search: the property stated on the implementation (no model): other dimensions keep their raw bytes, record length = standard +
 extra bytes, exactly one extra-bytes VLR describing the current dimensions in order iff there are any (descriptors parsed with
 struct from the ASPRS layout), round trip keeps names / types / scales / offsets / values / VLRs, a bad removal raises
-LaspyException and changes nothing."""
+LaspyException and changes nothing; a whole-record assignment of a record of the same format reads back byte for byte, keeps format
+and VLRs, and the adds / removes after it behave as ever; a record of a different format is refused and changes nothing."""
 import io
 import struct
 
@@ -26,6 +29,9 @@ ASSUMPTIONS = [
     "that a LAS file carries the point size, the VLR payloads and the point bytes verbatim is C01/C07/C08; the round trip of this model "
     "starts from (format id, point size, VLR list, record bytes)",
     "scaled values are compared as the stored raw bytes and scales/offsets as binary64 bit patterns; float presentation is C11",
+    "a record assigned as a whole (las.points = r) either has exactly the extra dimensions of the LasData (bit-identical, or -0.0 for 0.0 "
+    "among the offsets) or differs from them in something PointFormat.__eq__ looks at; DimensionInfo.__eq__ compares kind and total bits "
+    "but not the element count (uint16 vs 2 x uint8 compare equal: modelled so by fmt_eqv, never generated); scales/offsets are never NaN",
 ]
 
 BASE = ["u1", "i1", "u2", "i2", "u4", "i4", "u8", "i8", "f4", "f8"]     # ASPRS LAS 1.4 R15 table 24, data types 1..10 (x2: 11..20, x3: 21..30)
@@ -192,6 +198,106 @@ def rand_std(rng, fmt, npts):
     return bytes(rng.choice([0, 0, 1, 2, 255]) for _ in range(size * npts))
 
 
+def type_kind(t):
+    return "u" if t[0] == "o" else BASE[(t[1] - 1) % 10][0]
+
+
+def rand_records(rng, fmt, dims, m):
+    """raw bytes of m whole points of format (fmt, dims): standard block then every extra dimension"""
+    out = bytearray()
+    for _ in range(m):
+        out += rand_std(rng, fmt, 1)
+        for d in dims:
+            out += rand_values(rng, tuple(d["type"]), d["scale"] is not None, 1)
+    return bytes(out)
+
+
+SOURCES = ["copy", "copy", "self", "slice", "other", "other", "reread", "packed"]
+MISMATCHES = ["missing", "extra", "name", "desc", "type", "scaledness", "scale", "order"]
+NEG_ZERO = 1 << 63
+
+
+def mismatching_dims(rng, shadow, reserved, kind):
+    """extra dimensions that PointFormat.__eq__ must tell from `shadow` (never differing ONLY in the element count of a type of
+    the same kind and total size, which DimensionInfo.__eq__ does not look at); None if this kind does not apply"""
+    dims = [dict(d) for d in shadow]
+    used = {bytes.fromhex(d["name"]).decode() for d in shadow}
+    if kind == "extra":
+        return dims + [rand_dim(rng, used, reserved)]
+    if not dims:
+        return None
+    i = rng.randrange(len(dims))
+    d = dims[i]
+    t = tuple(d["type"])
+    if kind == "missing":
+        del dims[i if rng.random() < 0.5 else -1]
+    elif kind == "name":
+        d["name"] = hx(rand_text(rng, rand_len(rng), used, reserved).encode())
+    elif kind == "desc":
+        old = bytes.fromhex(d["desc"])
+        new = old
+        while new == old:
+            new = rand_text(rng, rng.choice([0, 1, 5, 32]) or 1, loose=True).encode() if rng.random() < 0.8 else b""
+        d["desc"] = hx(new)
+    elif kind == "type":
+        for _ in range(50):
+            t2 = rand_type(rng)
+            if (type_kind(t2), type_size(t2)) != (type_kind(t), type_size(t)):
+                break
+        else:
+            return None
+        d["type"] = list(t2)
+        if d["scale"] is not None:
+            d["scale"] = None if t2[0] == "o" else [[lasio.f64bits(0.5)] * type_elems(t2), [lasio.f64bits(1.0)] * type_elems(t2)]
+    elif kind == "scaledness":
+        if t[0] == "o":
+            return None
+        d["scale"] = None if d["scale"] is not None else [[lasio.f64bits(1.0)] * type_elems(t), [lasio.f64bits(0.0)] * type_elems(t)]
+    elif kind == "scale":
+        if d["scale"] is None:
+            return None
+        which, j = rng.randrange(2), rng.randrange(type_elems(t))
+        sc = [list(d["scale"][0]), list(d["scale"][1])]
+        sc[which][j] = lasio.f64bits(lasio.bits_f64(sc[which][j]) + 1.0 if abs(lasio.bits_f64(sc[which][j])) < 1e15 else 7.0)
+        d["scale"] = sc
+    elif kind == "order":
+        if len(dims) < 2:
+            return None
+        j = (i + 1 + rng.randrange(len(dims) - 1)) % len(dims)
+        dims[i], dims[j] = dims[j], dims[i]
+    return dims
+
+
+def rand_set_points(rng, fmt, shadow, cur, reserved, source=None, mismatch=None):
+    """las.points = <a record with its own PointFormat>: how the record is obtained (source), how many points it has, its own extra
+    dimensions (those of the LasData unless `mismatch`) and the bytes of all its points"""
+    dims = [dict(d) for d in shadow]
+    if mismatch:
+        dims = mismatching_dims(rng, shadow, reserved, mismatch)
+        if dims is None:
+            mismatch, dims = "extra", mismatching_dims(rng, shadow, reserved, "extra")
+        source = source if source in ("other", "packed") else rng.choice(["other", "packed"])
+    source = source or rng.choice(SOURCES)
+    op = {"op": "set_points", "source": source}
+    if source in ("copy", "self", "reread"):
+        m = cur
+    elif source == "slice":
+        m = rng.randrange(cur + 1)
+    else:
+        m = rng.choice([0, 1, 2, 3, 5, cur, cur, cur + 1])
+        if not mismatch and rng.random() < 0.25:
+            # numerically equal, not bit-identical: 0.0 <-> -0.0 among the offsets (PointFormat.__eq__ compares numbers)
+            for d in dims:
+                if d["scale"] is not None:
+                    d["scale"] = [list(d["scale"][0]), [b ^ NEG_ZERO if b in (0, NEG_ZERO) else b for b in d["scale"][1]]]
+        op["one_by_one"] = rng.random() < 0.5
+    size = std_dtype(fmt).itemsize + sum(type_size(tuple(d["type"])) for d in dims)
+    op.update({"npts": m, "dims": dims, "size": size, "raw": hx(rand_records(rng, fmt, dims, m))})
+    if mismatch:
+        op["mismatch"] = mismatch
+    return op
+
+
 def rand_vlrs(rng):
     out = []
     for _ in range(rng.choice([0, 0, 1, 2, 3])):
@@ -204,25 +310,29 @@ def rand_vlrs(rng):
 
 def gen_history(rng, reserved, fmt=None, steps=None, npts=None, plan=None):
     """a history: header parameters, initial standard bytes, VLRs, and up to 12 operations ending with a round trip.
-    `plan` (optional) is a list of forced first operations given as callables(shadow) -> op."""
+    `plan` (optional) is a list of forced first operations given as callables(shadow, current number of points) -> op."""
     fmt = rng.randrange(11) if fmt is None else fmt
     ver = rng.choice([v for v in lasio.VERSIONS if fmt in lasio.COMPAT[v]])
     npts = rng.choice([0, 1, 2, 3, 5, 17]) if npts is None else npts
-    h = {"version": ver, "fmt": fmt, "npts": npts, "std": hx(rand_std(rng, fmt, npts)), "vlrs": rand_vlrs(rng), "ops": []}
+    h = {"version": ver, "fmt": fmt, "npts": npts, "std": hx(rand_std(rng, fmt, npts)), "vlrs": rand_vlrs(rng), "ops": [],
+         "own_format": rng.random() < 0.5}      # LasData(header, record) with a record that carries its own PointFormat object
     shadow = []      # current extra dimensions as the property expects them
     steps = rng.choice([2, 4, 6, 8, 11]) if steps is None else steps
     import laspy.point.dims as dims
     std_names = list(std_dtype(fmt).names) + [s.name for subs in dims.COMPOSED_FIELDS[fmt].values() for s in subs]
     queue = list(plan or [])
+    cur = npts       # whole-record assignments change the number of points
     while len(h["ops"]) < steps:
         if queue:
-            op = queue.pop(0)(shadow)
+            op = queue.pop(0)(shadow, cur)
             if op is None:
                 continue
         else:
             k = rng.random()
             used = {bytes.fromhex(d["name"]).decode() for d in shadow}
-            if k < 0.36 or (not shadow and k < 0.7):
+            if rng.random() < 0.11:
+                op = rand_set_points(rng, fmt, shadow, cur, reserved, mismatch=rng.choice(MISMATCHES) if rng.random() < 0.2 else None)
+            elif k < 0.36 or (not shadow and k < 0.7):
                 dims_ = []
                 for _ in range(rng.choice([1, 1, 1, 2, 3])):
                     d = rand_dim(rng, used, reserved)
@@ -236,9 +346,9 @@ def gen_history(rng, reserved, fmt=None, steps=None, npts=None, plan=None):
             elif k < 0.71 and shadow:
                 d = rng.choice(shadow)
                 op = {"op": "assign", "name": d["name"], "size": type_size(tuple(d["type"])),
-                      "raw": hx(rand_values(rng, tuple(d["type"]), d["scale"] is not None, npts))}
+                      "raw": hx(rand_values(rng, tuple(d["type"]), d["scale"] is not None, cur))}
             elif k < 0.76:
-                op = {"op": "assign_std", "size": std_dtype(fmt).itemsize, "raw": hx(rand_std(rng, fmt, npts))}
+                op = {"op": "assign_std", "size": std_dtype(fmt).itemsize, "raw": hx(rand_std(rng, fmt, cur))}
             elif k < 0.86:
                 op = {"op": "roundtrip"}
             else:
@@ -267,6 +377,8 @@ def gen_history(rng, reserved, fmt=None, steps=None, npts=None, plan=None):
             shadow.extend(op["dims"])
         elif op["op"] == "remove" and remove_is_valid(shadow, op["names"]):
             shadow[:] = [d for d in shadow if d["name"] not in op["names"]]
+        elif op["op"] == "set_points" and not op.get("mismatch"):
+            cur = op["npts"]
     h["ops"].append({"op": "roundtrip"})
     return h
 
@@ -286,7 +398,7 @@ def make_las(h):
         hdr.vlrs.append(laspy.VLR(user_id=bytes.fromhex(u).decode(), record_id=r, description=bytes.fromhex(d).decode(), record_data=bytes.fromhex(p)))
     dt = std_dtype(h["fmt"])
     arr = np.frombuffer(bytes.fromhex(h["std"]), dtype=dt).copy() if h["npts"] else np.zeros(0, dt)
-    pts = laspy.PackedPointRecord(arr, hdr.point_format)
+    pts = laspy.PackedPointRecord(arr, laspy.PointFormat(h["fmt"]) if h.get("own_format") else hdr.point_format)
     return laspy.LasData(hdr, pts)
 
 
@@ -297,6 +409,46 @@ def mk_param(d):
         kw = dict(scales=np.array([lasio.bits_f64(b) for b in d["scale"][0]], dtype=np.float64),
                   offsets=np.array([lasio.bits_f64(b) for b in d["scale"][1]], dtype=np.float64))
     return laspy.ExtraBytesParams(bytes.fromhex(d["name"]).decode(), type_str(tuple(d["type"])), description=bytes.fromhex(d["desc"]).decode(), **kw)
+
+
+def build_record(las, op):
+    """the record a whole-record assignment assigns: obtained the way op['source'] says, then filled with op['raw']"""
+    import laspy
+    from laspy.point import record
+    src, m = op["source"], op["npts"]
+    fmt = las.header.point_format.id
+    if src == "self":
+        rec = las.points
+    elif src == "copy":
+        rec = las.points.copy()
+    elif src == "slice":
+        rec = las.points[:m]
+    elif src == "reread":
+        bio = io.BytesIO()
+        las.write(bio)
+        rec = laspy.read(io.BytesIO(bio.getvalue())).points
+    elif src == "other":
+        other = laspy.LasData(laspy.LasHeader(version=str(las.header.version), point_format=fmt))
+        ps = [mk_param(d) for d in op["dims"]]
+        if op.get("one_by_one"):
+            for p_ in ps:
+                other.add_extra_dim(p_)
+        elif ps:
+            other.add_extra_dims(ps)
+        other.points = record.ScaleAwarePointRecord.zeros(m, header=other.header)
+        rec = other.points
+    elif src == "packed":
+        pf = laspy.PointFormat(fmt)
+        for d in op["dims"]:
+            pf.add_extra_dimension(mk_param(d))
+        rec = laspy.PackedPointRecord.zeros(m, pf)
+    else:
+        raise ValueError("unknown source " + src)
+    if len(rec.array) != m:
+        raise RuntimeError(f"harness: source {src} gave {len(rec.array)} points, wanted {m}")
+    if m:
+        rec.array[...] = np.frombuffer(bytes.fromhex(op["raw"]), dtype=rec.array.dtype)
+    return rec
 
 
 def apply_op(las, op):
@@ -331,6 +483,12 @@ def apply_op(las, op):
             blk = np.frombuffer(bytes.fromhex(op["raw"]), dtype=dt)
             for f in dt.names:
                 las.points.array[f] = blk[f]
+        elif k == "set_points":
+            try:
+                rec = build_record(las, op)
+            except Exception as ex:   # noqa: BLE001 — not the outcome of the assignment itself
+                return las, "err:obtaining the record (" + op["source"] + "):" + common.exc_kind(ex)
+            las.points = rec
         elif k == "roundtrip":
             bio = io.BytesIO()
             las.write(bio)
@@ -395,6 +553,8 @@ def op_tok(op):
         return f"S!x{op['name']}!{op['size']}!x{op['raw']}"
     if k == "assign_std":
         return f"T!{op['size']}!x{op['raw']}"
+    if k == "set_points":
+        return "P!" + ("+".join(dim_tok(d) for d in op["dims"]) or "-") + f"!{op['size']}!x{op['raw']}"
     return "W"
 
 
@@ -418,6 +578,13 @@ def snap_tokens(status, sn, nstd):
     return [status, "+".join(ex) or "-", common.hexb(sn["bytes"]), ",".join(fl) or "-", lasio.vlrs_tok(sn["vlrs"])]
 
 
+def op_label(op):
+    k = op["op"]
+    if k == "set_points":
+        return "whole-record assignment (" + op["source"] + (", other format: " + op["mismatch"] if op.get("mismatch") else "") + ")"
+    return k + (" bad " + op["bad"] if op.get("bad") else "")
+
+
 COMPONENTS = ["outcome", "point format", "record bytes", "dimension values", "vlrs"]
 
 
@@ -436,7 +603,7 @@ def compare(h, snaps, mline):
         it = snap_tokens(snaps[i + 1][0], snaps[i + 1][1], nstd)
         for c, (a, b) in enumerate(zip(mt, it)):
             if a != b:
-                out.append((i, op["op"] + (" bad " + op["bad"] if op.get("bad") else ""), COMPONENTS[c], a[:160], b[:160]))
+                out.append((i, op_label(op), COMPONENTS[c], a[:160], b[:160]))
                 break
         if out:
             break
@@ -555,7 +722,18 @@ def oracle(h, snaps):
         else:
             new_shadow = shadow
         label = k + (" bad name " + op["bad"] if op.get("bad") else "")
-        if expect_err:
+        if k == "set_points":
+            label = "whole-record assignment (" + op["source"] + ")"
+        if k == "set_points" and op.get("mismatch"):
+            # a record of another format: refused, nothing changes (were it taken, header / VLR and record would disagree)
+            if status.startswith("err:obtaining the record"):
+                out.append((f"a record with these extra dimensions could not be made ({op['source']})", i, f"outcome {status}"))
+            elif status != "err:ELaspy":
+                out.append((f"record of a different format ({op['mismatch']}) not refused with LaspyException", i, f"outcome {status}"))
+            changed = [c for c in ("extras", "names", "bytes", "vlrs", "itemsize", "pf_size", "hdr_pf_size", "npts") if sn[c] != prev[c]]
+            if changed:
+                out.append((f"refused whole-record assignment ({op['mismatch']}) not atomic", i, f"after the refusal these changed: {changed}"))
+        elif expect_err:
             if status != "err:ELaspy":
                 out.append((f"remove of a {op.get('bad', 'bad')} name not refused with LaspyException", i, f"outcome {status}"))
             changed = [c for c in ("extras", "names", "bytes", "vlrs", "itemsize", "pf_size", "hdr_pf_size") if sn[c] != prev[c]]
@@ -567,6 +745,15 @@ def oracle(h, snaps):
             # (I1) every dimension not named by the operation keeps its raw bytes in every record
             if k == "assign_std":
                 keep = [n for n in prev["names"] if n not in std_dtype(fmt).names]
+            elif k == "set_points":
+                keep = []            # every dimension is assigned
+                if status == "ok":
+                    if sn["bytes"] != bytes.fromhex(op["raw"]) or sn["npts"] != op["npts"]:
+                        out.append(("whole-record assignment does not read back", i, f"{sn['npts']} points, expected {op['npts']}"
+                                    if sn["npts"] != op["npts"] else "the bytes of the record differ from the assigned ones"))
+                    if sn["vlrs"] != prev["vlrs"]:
+                        out.append(("whole-record assignment changed the VLRs", i,
+                                    f"{[(v[0], v[1], len(v[3])) for v in prev['vlrs']]} -> {[(v[0], v[1], len(v[3])) for v in sn['vlrs']]}"))
             else:
                 keep = [n for n in prev["names"] if n not in named]
             for n in keep:
@@ -658,38 +845,97 @@ def systematic(ctx, reserved):
     for j, (k, v, sc) in enumerate(types):
         t = (k, v)
 
-        def add_main(shadow, t=t, sc=sc):
+        def add_main(shadow, cur, t=t, sc=sc):
             return {"op": "add", "dims": [rand_dim(rng, set(), reserved, t=t, scaled=sc)], "single": True}
 
         npts = [1, 2, 3][j % 3]
 
-        def assign_main(shadow, t=t, npts=npts):
+        def assign_main(shadow, cur, t=t, npts=npts):
             d = shadow[0]
             return {"op": "assign", "name": d["name"], "size": type_size(t), "raw": hx(rand_values(rng, t, d["scale"] is not None, npts))}
 
-        def add_other(shadow):
+        def add_other(shadow, cur):
             used = {bytes.fromhex(d["name"]).decode() for d in shadow}
             d1 = rand_dim(rng, used, reserved)
             d2 = rand_dim(rng, used | {bytes.fromhex(d1["name"]).decode()}, reserved)
             return {"op": "add", "dims": [d1, d2], "single": False}
 
-        def remove_other(shadow):
+        def remove_other(shadow, cur):
             return {"op": "remove", "names": [d["name"] for d in shadow[1:]][::-1], "single": False, "as": "list"}
 
-        def rt(shadow):
+        def rt(shadow, cur):
             return {"op": "roundtrip"}
 
-        def remove_main(shadow):
+        def remove_main(shadow, cur):
             return {"op": "remove", "names": [shadow[0]["name"]], "single": True}
 
         hs.append(gen_history(rng, reserved, fmt=j % 11, steps=7, npts=npts,
                               plan=[add_main, assign_main, add_other, remove_other, rt, remove_main, rt]))
     for L in range(1, 33):
-        def add_len(shadow, L=L):
+        def add_len(shadow, cur, L=L):
             return {"op": "add", "dims": [rand_dim(rng, set(), reserved, name_len=L, desc_len=L),
                                           rand_dim(rng, set(), reserved, name_len=33 - L, desc_len=32 - L)], "single": False}
-        hs.append(gen_history(rng, reserved, fmt=L % 11, steps=3, npts=L % 3, plan=[add_len, lambda s: {"op": "roundtrip"},
-                                                                                    lambda s: {"op": "remove", "names": [s[1]["name"]], "single": True}]))
+        hs.append(gen_history(rng, reserved, fmt=L % 11, steps=3, npts=L % 3, plan=[add_len, lambda s, c: {"op": "roundtrip"},
+                                                                                    lambda s, c: {"op": "remove", "names": [s[1]["name"]], "single": True}]))
+    # whole-record assignment from every kind of source, followed by every kind of follow-up; records of another format
+    j = 0
+    for source in ["copy", "self", "slice", "other", "reread", "packed"]:
+        for follow in ["add", "remove", "remove-all", "assign", "add-remove"]:
+            for first in ([True, False] if follow == "add" else [True]):     # also on a LasData without any extra dimension yet
+                j += 1
+                fmt = j % 11
+
+                def add2(shadow, cur):
+                    used = set()
+                    ds = []
+                    for _ in range(2):
+                        d = rand_dim(rng, used, reserved)
+                        used.add(bytes.fromhex(d["name"]).decode())
+                        ds.append(d)
+                    return {"op": "add", "dims": ds, "single": False}
+
+                def setp(shadow, cur, source=source, fmt=fmt):
+                    return rand_set_points(rng, fmt, shadow, cur, reserved, source=source)
+
+                def add1(shadow, cur):
+                    used = {bytes.fromhex(d["name"]).decode() for d in shadow}
+                    return {"op": "add", "dims": [rand_dim(rng, used, reserved)], "single": True}
+
+                def rem1(shadow, cur):
+                    return {"op": "remove", "names": [rng.choice(shadow)["name"]], "single": True}
+
+                def rem_all(shadow, cur):
+                    return {"op": "remove", "names": [d["name"] for d in shadow], "single": False, "as": "list"}
+
+                def asg(shadow, cur):
+                    d = rng.choice(shadow)
+                    return {"op": "assign", "name": d["name"], "size": type_size(tuple(d["type"])),
+                            "raw": hx(rand_values(rng, tuple(d["type"]), d["scale"] is not None, cur))}
+
+                tail = {"add": [add1], "remove": [rem1], "remove-all": [rem_all], "assign": [asg, add1], "add-remove": [add1, rem1, setp, rem1]}[follow]
+                plan = ([add2] if first else []) + [setp] + tail + [lambda s, c: {"op": "roundtrip"}]
+                hs.append(gen_history(rng, reserved, fmt=fmt, steps=len(plan), npts=[3, 1, 2, 5, 0][j % 5], plan=plan))
+    for j, mm in enumerate(MISMATCHES * 2):
+        def add3(shadow, cur, j=j):
+            used = set()
+            ds = []
+            for i in range(3):
+                d = rand_dim(rng, used, reserved, t=("s", 1 + (7 * j + 11 * i) % 30) if i < 2 else None, scaled=(i == 0) or None)
+                used.add(bytes.fromhex(d["name"]).decode())
+                ds.append(d)
+            return {"op": "add", "dims": ds, "single": False}
+
+        def bad_setp(shadow, cur, mm=mm, j=j):
+            return rand_set_points(rng, j % 11, shadow, cur, reserved, mismatch=mm)
+
+        def good_setp(shadow, cur, j=j):
+            return rand_set_points(rng, j % 11, shadow, cur, reserved, source="other")
+
+        def add1b(shadow, cur):
+            used = {bytes.fromhex(d["name"]).decode() for d in shadow}
+            return {"op": "add", "dims": [rand_dim(rng, used, reserved)], "single": True}
+
+        hs.append(gen_history(rng, reserved, fmt=j % 11, steps=5, npts=[2, 0, 3][j % 3], plan=[add3, bad_setp, good_setp, add1b, lambda s, c: {"op": "roundtrip"}]))
     return hs
 
 
@@ -702,19 +948,26 @@ def histories(ctx):
 
 
 def describe(h):
-    return [o["op"] + (":" + o["bad"] if o.get("bad") else "") for o in h["ops"]]
+    return [o["op"] + (":" + o["bad"] if o.get("bad") else "") + (":" + o["source"] if o.get("source") else "")
+            + (":other-format-" + o["mismatch"] if o.get("mismatch") else "") for o in h["ops"]]
 
 
 def correspond(ctx):
     ctx.extra["rule"] = (
         "histories of 3..12 operations on a LasData of 0..17 points of every point format (random standard bytes, 0..3 foreign VLRs): "
+        "the LasData is built from a header and a record that shares the header's PointFormat object or (50%) carries its own; "
         "add_extra_dim(s) of 1..3 dimensions over the 30 element types (40% scaled, awkward scales/offsets) and opaque arrays of "
         "{4,5,7,8,9,15,16,17,24,31,32,255} bytes, names of 1..32 bytes and descriptions of 0..32 bytes (ASCII, some UTF-8); "
         "remove_extra_dim(s) of 1..all names (list, tuple, iterator), down to zero dimensions; raw assignments (int64 above 2^53, "
-        "non-integer floats, NaN payloads); assignments of the standard bytes; write/read round trips (always one at the end); "
+        "non-integer floats, NaN payloads); assignments of the standard bytes; whole-record assignments las.points = r (11% of the steps) "
+        "where r has its own PointFormat object and 0..n+1 points: las.points.copy(), las.points itself, a slice, the record of another "
+        "LasData that got the same dimensions (at once or one by one; sometimes -0.0 for 0.0 offsets), the record of a re-read copy, a bare "
+        "PackedPointRecord; 20% of them with a format that differs (dimension missing / extra / renamed / other description / other type / "
+        "scaled vs not / other scale / other order) and must be refused; write/read round trips (always one at the end); "
         "bad removals (standard name, unknown name, a name given twice, empty list; bad name before / in the middle of / after good ones). "
         "Plus a systematic family: every type scaled and unscaled and every opaque size through add, assign, add, remove, round trip, "
-        "remove, round trip; every name/description length 1..32. After every step point format, VLR payloads, all record bytes and the "
+        "remove, round trip; every name/description length 1..32; every source of a whole-record assignment followed by add / remove / "
+        "remove all / assign+add / add, remove, assign again, remove; every kind of differing format. After every step point format, VLR payloads, all record bytes and the "
         "raw values of each extra dimension are compared with the model. non-trivial = at least one successful add; distinct by the "
         "canonical operation list (types, lengths, scaled flags, outcomes).")
     hs = histories(ctx)
@@ -726,11 +979,14 @@ def correspond(ctx):
         _RUNS.append((h, snaps))
         ctx.traces += len(h["ops"])
         canon = (h["fmt"], h["npts"], tuple((o["op"], o.get("bad"), tuple((tuple(d["type"]), d["scale"] is not None, len(d["name"]) // 2, len(d["desc"]) // 2) for d in o.get("dims", [])),
-                                            len(o.get("names", []))) for o in h["ops"]), tuple(s[0] for s in snaps))
+                                            len(o.get("names", [])), o.get("source"), o.get("mismatch"), o.get("npts")) for o in h["ops"]), tuple(s[0] for s in snaps))
         ctx.case(canon, nontrivial=any(o["op"] == "add" for o in h["ops"]),
                  sample={"format": h["fmt"], "points": h["npts"], "ops": describe(h), "outcomes": [s[0] for s in snaps[1:]]})
         for o, s in zip(h["ops"], snaps[1:]):
-            ctx.count("op:" + o["op"] + (":bad-" + o["bad"] if o.get("bad") else ""))
+            ctx.count("op:" + o["op"] + (":bad-" + o["bad"] if o.get("bad") else "") + (":" + o["source"] if o.get("source") else "")
+                      + (":other-format" if o.get("mismatch") else ""))
+            if o.get("mismatch"):
+                ctx.count("other format: " + o["mismatch"])
             ctx.count("outcome:" + s[0])
             for d in o.get("dims", []):
                 ctx.count("type:" + ("opaque" if d["type"][0] == "o" else "scaled" if d["scale"] else "plain"))
